@@ -137,7 +137,8 @@ func (k *Keeper) UpdateRateLimit(ctx sdk.Context, msg *types.MsgUpdateRateLimit)
 	}
 
 	// Update the rate limit object with the new quota information
-	// The flow should also get reset to 0
+	// The flow should also get reset to 0, and since this starts a new quota window,
+	// all pending packet sequence numbers should be removed (same as ResetRateLimit)
 	path := types.Path{
 		Denom:             msg.Denom,
 		ChannelOrClientId: msg.ChannelOrClientId,
@@ -159,7 +160,11 @@ func (k *Keeper) UpdateRateLimit(ctx sdk.Context, msg *types.MsgUpdateRateLimit)
 		Flow:  &flow,
 	})
 
-	return nil
+	if err := k.RemoveAllChannelPendingSendPackets(ctx, msg.ChannelOrClientId, msg.Denom); err != nil {
+		return err
+	}
+
+	return k.RemoveAllChannelPendingReceivePackets(ctx, msg.ChannelOrClientId, msg.Denom)
 }
 
 // Reset the rate limit after expiration
